@@ -47,6 +47,12 @@ theorem dimsMatch_iff (decl : List DimDecl) (shape : List Nat) (hl : shape.lengt
           simp only [List.getElem_cons_succ] at this
           exact this hd
 
+-- non-vacuity: a declaration (2, dynamic) against the shape 2×7
+example : dimsMatch [DimDecl.ofValue 2, DimDecl.ofValue 0] [2, 7] = true ↔
+      ∀ i (h : i < [DimDecl.ofValue 2, DimDecl.ofValue 0].length) (h' : i < [2, 7].length),
+        [DimDecl.ofValue 2, DimDecl.ofValue 0][i].isDynamic = false → [DimDecl.ofValue 2, DimDecl.ofValue 0][i].size = (([2, 7][i] : Nat) : Int) :=
+  dimsMatch_iff [DimDecl.ofValue 2, DimDecl.ofValue 0] [2, 7] rfl
+
 /-- **Acceptance rule.** `validateShapes` succeeds iff every declared input that carries a shape
 and is not an initializer is supplied with a tensor of the declared rank whose fixed dimensions
 match — whatever the symbolic / unspecified ones are, and whatever else is supplied. -/
@@ -90,10 +96,20 @@ theorem validate_error (decls : List InputDecl) (params : List String) (ins : Li
   · cases h
   · cases h; rfl
 
+-- non-vacuity: three declared inputs (one without a shape), `w` an initializer, `x` supplied with a wrong fixed dimension
+private def nv_decls : List InputDecl :=
+  [⟨"x", some [DimDecl.ofValue 2, DimDecl.ofValue 0]⟩, ⟨"w", some [DimDecl.ofValue 3]⟩, ⟨"u", none⟩]
+example : Err.model = .model :=
+  validate_error nv_decls ["w"] [("x", [3, 7])] .model (by decide)
+
 /-- an input that is also an initializer is never required -/
 theorem shadowed_not_required (decls : List InputDecl) (params : List String) (ins : List (String × List Nat))
     (h : ∀ e ∈ inputShapes decls, e.1 ∈ params) : validateShapes decls params ins = .ok () := by
   rw [validate_ok_iff]; intro e he hp; exact absurd (h e he) hp
+
+-- non-vacuity: both shaped inputs are initializers; only an undeclared tensor is supplied
+example : validateShapes nv_decls ["w", "x"] [("y", [1])] = .ok () :=
+  shadowed_not_required nv_decls ["w", "x"] [("y", [1])] (by decide)
 
 /-- a missing required input is rejected -/
 theorem missing_rejected (decls : List InputDecl) (params : List String) (ins : List (String × List Nat))
@@ -105,6 +121,10 @@ theorem missing_rejected (decls : List InputDecl) (params : List String) (ins : 
     obtain ⟨s, hs, _⟩ := (validate_ok_iff _ _ _).mp hv e he hp
     simp [hm] at hs
   | error err => rw [validate_error _ _ _ _ hv]
+
+-- non-vacuity: `x` is declared with a shape, is not an initializer and is not supplied
+example : validateShapes nv_decls ["w"] [("y", [1]), ("u", [4])] = .error .model :=
+  missing_rejected nv_decls ["w"] [("y", [1]), ("u", [4])] ("x", [DimDecl.ofValue 2, DimDecl.ofValue 0]) (by decide) (by decide) (by decide)
 
 -- non-vacuity
 example : validateShapes [⟨"x", some [DimDecl.ofValue 2, DimDecl.ofValue 0]⟩, ⟨"w", some [DimDecl.ofValue 3]⟩] ["w"]
